@@ -270,7 +270,7 @@ func (c *Conn) processEncryptedClientHello(h *clientHello, isRetry bool) (*clien
 	if err != nil {
 		return nil, err
 	}
-	inner, err := parseClientHello(msg)
+	inner, err := parseClientHelloMessage(msg, true)
 	if err != nil {
 		return nil, err
 	}
